@@ -32,7 +32,8 @@ def func_sig(f):
     try:
         src = inspect.getsource(f)
         fn = inspect.getsourcefile(f) or "?"
-        fn = os.path.relpath(fn, "/repo") if fn.startswith("/repo") else fn
+        repo = os.environ.get("VK_REPO", "/repo")
+        fn = os.path.relpath(fn, repo) if fn.startswith(repo) else fn
         q = getattr(f, "__qualname__", getattr(f, "__name__", "?"))
         return {"function": "%s:%s" % (fn, q), "sha1": hashlib.sha1(src.encode()).hexdigest()[:12]}
     except Exception as e:
@@ -170,6 +171,7 @@ def run_harness(h, params, tier, seed):
             res["solver_s"] += r.time
             bn = res["by_name"].setdefault(r.name, {"n": 0, "discharged": 0, "violated": 0, "inconclusive": 0})
             bn["n"] += 1
+            bn["t"] = round(bn.get("t", 0.0) + r.time, 2)
             if r.status == "discharged":
                 res["discharged"] += 1; bn["discharged"] += 1
                 hk = r.how.split(" depth")[0]
@@ -267,6 +269,8 @@ def compare_observed(a, b, rtol=1e-6, atol=1e-12):
                 bad.append((k, x, y))
             continue
         x = float(x); y = float(y)
+        if (np.isnan(x) and np.isnan(y)) or x == y:
+            continue
         if np.isnan(x) or np.isnan(y) or abs(x - y) > atol + rtol * max(abs(x), abs(y)):
             bad.append((k, x, y))
     return bad
